@@ -84,6 +84,11 @@ CLAIMED = {
                   'tied by hundreds to thousands of generated models whose real document dump must equal the generator\'s model (and the extracted Coq model must agree), including parameters, declarations and process argument binding.',
              design='4/C04',
              note='Trusted: hand model DocModel.v, docgen.py (generator, renderer, dump parser), utapdump. The libxml2 event level and declaration text are outside the Coq model; partial instantiation and LSC are not generated.'),
+ 'C20': dict(technique='Coq proof that an independent reader of the written element tree returns the graph of the document (unbounded templates; ids via decimal-string injectivity); tree-equality correspondence of write_XML_file output with the extracted writer model, graph oracle from the abstract model',
+             text='C20_writer_graph: for every template with dense numbering (any number of locations, branchpoints, edges, selects), read_templ (write_templ t) = Some (graph_of t): unique ids, names, invariant / rate labels, one init, one transition per edge in order with end points, controllable flag and select / guard / synchronisation / assignment / probability texts, and no duplicate label or init; '
+                  'tied by parsing write_XML_file output of hundreds to thousands of generated accepted models with expat and comparing it as a tree (layout removed) with the extracted model and as a graph with the generator\'s abstract model.',
+             design='4/C20',
+             note='Trusted: hand model WriterModel.v, libxml2 text writer (serialisation and escaping), Python ElementTree/expat, docgen.py, utapdump. Layout, the global declaration element and the system element are not modelled; LSC templates are not generated.'),
 }
 NOT_YET = 'check not built yet in this revision (work in progress, see DESIGN.md section 7 staging)'
 m = dict(version=1, setup_cmd='tools/setup.sh',
